@@ -141,7 +141,10 @@ def find_recombination(
     positions: Sequence[int],
     recombcost: Sequence[int],
 ) -> Sequence[RecombinationEvent]:
-    assert len(transmission_vector) == len(positions) == len(recombcost)
+    assert len(transmission_vector) == len(positions)
+    # The recombination cost computers return a single placeholder entry for an empty list of
+    # positions (a family without any accessible variant on this chromosome)
+    assert len(recombcost) == max(1, len(positions))
     assert set(components.keys()).issubset(set(positions))
     position_to_index = {pos: i for i, pos in enumerate(positions)}
     blocks = defaultdict(list)
